@@ -87,6 +87,36 @@ func profiles() []profile {
 		{"byteints", []starlark.Value{I(65), I(66), I(67)}},
 		{"one", []starlark.Value{I(5)}},
 	}
+	// elements that are themselves mutable collections or counting iterables: built-ins that iterate
+	// the ELEMENTS of their argument (dict(seq), d.update(seq): each element is a pair) must release them too
+	listOf := func(n int) starlark.Value {
+		var e []starlark.Value
+		for i := 0; i < n; i++ {
+			e = append(e, S(string(rune('p'+i))))
+		}
+		return starlark.NewList(e)
+	}
+	ps = append(ps, profile{"pairs-as-lists", []starlark.Value{listOf(2), listOf(2)}})
+	for k := 0; k < 2; k++ {
+		for _, n := range []int{0, 1, 3} {
+			e := []starlark.Value{listOf(2), listOf(2)}
+			e[k] = listOf(n)
+			ps = append(ps, profile{fmt.Sprintf("pairs-list-len%d@%d", n, k), e})
+		}
+		e := []starlark.Value{listOf(2), listOf(2)}
+		st := starlark.NewSet(3)
+		st.Insert(I(1))
+		st.Insert(I(2))
+		st.Insert(I(3))
+		e[k] = st
+		ps = append(ps, profile{fmt.Sprintf("pairs-set-len3@%d", k), e})
+		e = []starlark.Value{listOf(2), listOf(2)}
+		e[k] = &cseq{citer{elems: []starlark.Value{S("a"), S("b"), S("c")}, ctr: &counter{}}}
+		ps = append(ps, profile{fmt.Sprintf("pairs-cseq-len3@%d", k), e})
+		e = []starlark.Value{listOf(2), listOf(2)}
+		e[k] = &citer{elems: []starlark.Value{S("a")}, ctr: &counter{}}
+		ps = append(ps, profile{fmt.Sprintf("pairs-citer-len1@%d", k), e})
+	}
 	for k := 0; k < 3; k++ {
 		e := []starlark.Value{I(3), I(1), I(2)}
 		e[k] = unhashable()
@@ -319,6 +349,36 @@ func armBuiltins(c *driver.Ctx, kinds map[string]*kindInfo) {
 							}
 							if ctr.nextAfterDone > 0 {
 								c.Count("next_after_done_observed", 1)
+							}
+						}
+						for ei, el := range p.elems {
+							switch el := el.(type) {
+							case *starlark.List, *starlark.Dict, *starlark.Set:
+								if _, ic, _ := starlark.VerifState(el); ic != 0 {
+									c.Violation("C06 leak element-of-argument "+cl.name+" "+exitClass(err, pn, km),
+										fmt.Sprintf("%s with %s of %s: element #%d (%s) still has itercount=%d after return (err=%v)", cell, ik.name, p.name, ei, el.Type(), ic, err),
+										map[string]any{"callable": cl.name, "shape": sh.name, "profile": p.name, "iterable": ik.name})
+									// the profile's elements are shared between calls: unlock for the next ones is impossible; rebuild profiles
+									profs = profiles()
+								}
+							case *cseq:
+								if el.ctr.opened != el.ctr.closed {
+									c.Violation("C06 unbalanced-iter element-of-argument "+cl.name+" "+exitClass(err, pn, km),
+										fmt.Sprintf("%s with %s of %s: element #%d: Iterate %d, Done %d (err=%v)", cell, ik.name, p.name, ei, el.ctr.opened, el.ctr.closed, err), nil)
+									el.ctr.opened, el.ctr.closed = 0, 0
+								}
+								if el.ctr.opened > 0 {
+									c.Cover("callables_iterating_elements", cl.name)
+								}
+							case *citer:
+								if el.ctr.opened != el.ctr.closed {
+									c.Violation("C06 unbalanced-iter element-of-argument "+cl.name+" "+exitClass(err, pn, km),
+										fmt.Sprintf("%s with %s of %s: element #%d: Iterate %d, Done %d (err=%v)", cell, ik.name, p.name, ei, el.ctr.opened, el.ctr.closed, err), nil)
+									el.ctr.opened, el.ctr.closed = 0, 0
+								}
+								if el.ctr.opened > 0 {
+									c.Cover("callables_iterating_elements", cl.name)
+								}
 							}
 						}
 						for _, rv := range reals {
